@@ -109,7 +109,8 @@ def gen_history(r, mounts, big):
                 tr = [closing[i:i + 3] for i in range(0, len(closing), 3)]
                 tr.sort(key=lambda t: -t[1].count("/"))
                 args += [x for t in tr for x in t]
-            runs.append(args)
+            # some programs are started with the sync after exec and their callback then fails: they ran, the host saw a failed launch
+            runs.append({"args": args} if (ri == 0 and nruns > 1 and r.random() < 0.3) else args)
         cycles.append(runs)
         model.append((mops, kinds))
     return cycles, model
@@ -136,6 +137,11 @@ def run(c):
     for i in range(nh + nbig):
         big = i >= nh
         cyc, model = gen_history(r, mounts, big)
+        if i % 4 == 1:
+            # a cycle whose only program is one whose sync callback fails (the host may believe nothing ran)
+            for cy in cyc:
+                if len(cy) == 1 and isinstance(cy[0], list):
+                    cy[0] = {"args": cy[0]}
         cases.append({"id": i, "mode": "reset", "mounts": mounts, "cycles": cyc})
         meta.append((model, big))
     cases.append({"id": len(cases), "mode": "reset", "mounts": ["/w", "/tmp"], "rwbind": True,
@@ -186,7 +192,7 @@ def run(c):
                                                       hexnames(co["after_host"].get(m), names)))
                 items.append(coq_list(ms))
                 item_src.append((x["id"], ci))
-    c.sample({"history": [a[:12] for a in cases[0]["cycles"][0]], "observed": {k: v for k, v in obs[0]["cycles"][0].items() if k != "before"},
+    c.sample({"history": [(a["args"] if isinstance(a, dict) else a)[:12] for a in cases[0]["cycles"][0]], "observed": {k: v for k, v in obs[0]["cycles"][0].items() if k != "before"},
               "top_level_before": {m: len(v or []) for m, v in obs[0]["cycles"][0]["before"].items()}})
     body = HDR + "Definition cs : list (list (bool * list (list nat * nat * node) * list nat * list nat)) := %s.\nDefinition M := Eval vm_compute in failing history_ok cs.\nPrint M.\n" % coq_list(items)
     for i in c.parse_nums(c.parse_printed(c.coq_eval("reset", body, timeout=1200), "M").replace("%N", "")):
